@@ -999,6 +999,14 @@ func (t *glTr) callExpr(c *glCtx, x *ast.CallExpr) string {
 		if (len(x.Args) == 2 || len(x.Args) == 3) && isIntSeq(t.p.info.TypeOf(x.Args[0])) {
 			return fmt.Sprintf("EBuiltin \"make\" [%s]", arg(1))
 		}
+		// make([]T, 0[, c]) for a slice of non-integers (structs): the empty list of values
+		if len(x.Args) >= 2 {
+			if _, ok := t.p.info.TypeOf(x.Args[0]).Underlying().(*types.Slice); ok {
+				if tv, ok := t.p.info.Types[x.Args[1]]; ok && tv.Value != nil && tv.Value.String() == "0" {
+					return "EBuiltin \"makev\" []"
+				}
+			}
+		}
 	case "append":
 		if isIntSeq(t.p.info.TypeOf(x.Args[0])) {
 			if x.Ellipsis.IsValid() && len(x.Args) == 2 {
@@ -1010,12 +1018,39 @@ func (t *glTr) callExpr(c *glCtx, x *ast.CallExpr) string {
 			}
 			return cur
 		}
+		// append(s, v...) on a slice of non-integers (struct values): the list of values grows at its end
+		if _, ok := t.p.info.TypeOf(x.Args[0]).Underlying().(*types.Slice); ok && !x.Ellipsis.IsValid() {
+			cur := arg(0)
+			for i := 1; i < len(x.Args); i++ {
+				cur = fmt.Sprintf("EBuiltin \"appendv\" [%s; %s]", cur, arg(i))
+			}
+			return cur
+		}
 	case "bits.LeadingZeros64":
 		return fmt.Sprintf("EBuiltin \"bits.LeadingZeros64\" [%s]", arg(0))
 	case "binary.LittleEndian.Uint16", "binary.LittleEndian.Uint32", "binary.LittleEndian.Uint64":
 		return fmt.Sprintf("EBuiltin %s [%s]", glStr("le."+name[strings.LastIndex(name, ".")+1:]), arg(0))
 	case "binary.BigEndian.Uint16", "binary.BigEndian.Uint32", "binary.BigEndian.Uint64":
 		return fmt.Sprintf("EBuiltin %s [%s]", glStr("be."+name[strings.LastIndex(name, ".")+1:]), arg(0))
+	case "errors.Is":
+		// errors.Is(e, pkg.ErrX) / errors.Is(e, ErrX): the comparison with the innermost wrapped error (see fmt.Errorf
+		// below); e == ErrX compares the error value itself
+		if len(x.Args) == 2 {
+			if sy, ok := x.Args[1].(*ast.SelectorExpr); ok {
+				if pid, ok := sy.X.(*ast.Ident); ok {
+					if _, isPkg := t.p.info.Uses[pid].(*types.PkgName); isPkg {
+						if v, ok := t.p.info.Uses[sy.Sel].(*types.Var); ok && isErrorType(v.Type()) {
+							return fmt.Sprintf("EErrorsIs (%s) %s", arg(0), glStr(pid.Name+"."+sy.Sel.Name))
+						}
+					}
+				}
+			}
+			if id, ok := x.Args[1].(*ast.Ident); ok {
+				if v, ok := t.p.info.Uses[id].(*types.Var); ok && v.Parent() == t.p.pkg.Scope() && isErrorType(v.Type()) {
+					return fmt.Sprintf("EErrorsIs (%s) %s", arg(0), glStr(v.Name()))
+				}
+			}
+		}
 	case "errors.New", "fmt.Errorf":
 		msg := "?"
 		if len(x.Args) > 0 {
@@ -1026,7 +1061,13 @@ func (t *glTr) callExpr(c *glCtx, x *ast.CallExpr) string {
 		// A freshly made error is identified by the function that made it, not by its text: rewording a message is
 		// not a change of behaviour (callers test such errors against nil only). The operands of the message are not
 		// evaluated by the model.
-		_ = msg
+		// fmt.Errorf("...%w...", ..., err) WRAPS err: a new error (== err is false) that errors.Is sees through
+		// (only the text is dropped).
+		if name == "fmt.Errorf" {
+			if k := glWrapVerbArg(msg); k >= 0 && k+1 < len(x.Args) {
+				return "EWrap (" + arg(k+1) + ")"
+			}
+		}
 		return "EErr " + glStr(name)
 	}
 	// a translated function, an oracle or an external: hoist
@@ -1779,4 +1820,28 @@ func (t *glTr) funcBody(fn *glFn) string {
 		_ = vals
 	}
 	return glSeq(append(pre, body, tail))
+}
+
+// glWrapVerbArg: the index (among the operands) of the operand formatted by the %w verb of a format string, or -1
+func glWrapVerbArg(format string) int {
+	k := 0
+	for i := 0; i < len(format); i++ {
+		if format[i] != '%' {
+			continue
+		}
+		i++
+		if i < len(format) && format[i] == '%' {
+			continue
+		}
+		for i < len(format) && strings.ContainsRune("+-# 0123456789.", rune(format[i])) {
+			i++
+		}
+		if i < len(format) {
+			if format[i] == 'w' {
+				return k
+			}
+			k++
+		}
+	}
+	return -1
 }
